@@ -249,7 +249,9 @@ bool Instance::rewind() {
         return false;
     }
     if (env->done) {
+        // the step that finished the session recorded no history entry: undoing it only reopens the session
         env->done = false;
+        return true;
     }
     return RewindScript(*env);
 }
